@@ -87,6 +87,7 @@ theorem measure_interrupt (s : St) (p : Pid) : measure ((interrupt s p).pc p) â‰
   unfold interrupt
   split
   Â· rename_i h; simp [setPC, measure, afterMeasure, h]
+  Â· simp [setPC, measure]
   Â· exact Nat.le_refl _
 
 /-- the others' measures are untouched -/
